@@ -3,9 +3,10 @@
 PROPS = {
     'C01': dict(
         module='c01',
-        modules=['DeeprobModel.Props.C01', 'DeeprobModel.Oblig.C01'],
+        modules=['DeeprobModel.Props.C01', 'DeeprobModel.Oblig.C01', 'DeeprobModel.Props.Clt'],
         theorems=['Deeprob.C01_semantics', 'Deeprob.C01_normalised', 'Deeprob.Circ.marg', 'Deeprob.Circ.normalised',
-                  'Deeprob.evalNet_refines', 'Deeprob.valid_toTree',
+                  'Deeprob.evalNet_refines', 'Deeprob.valid_toTree', 'Deeprob.Clt.value_leafOK', 'Deeprob.Clt.up_normalised',
+                  'Deeprob.Clt.joint_eq_up',
                   'Deeprob.Oblig.iso_ood_consistent', 'Deeprob.Oblig.iso_ood_pos', 'Deeprob.Oblig.floor_inactive'],
         fragments=['isoOodLik', 'isoOodLogLikArg', 'llFloor'],
         rule='random valid circuits (trees and DAGs, arity 1-5, every leaf family incl. CLT leaves, permuted and '
@@ -15,9 +16,10 @@ PROPS = {
     ),
     'C02': dict(
         module='c02',
-        modules=['DeeprobModel.Props.C02'],
+        modules=['DeeprobModel.Props.C02', 'DeeprobModel.Props.Clt'],
         theorems=['Deeprob.C02_marginal', 'Deeprob.C02_all_missing', 'Deeprob.Circ.marg', 'Deeprob.sumOver_set_eq',
-                  'Deeprob.evalNet_refines', 'Deeprob.valid_toTree'],
+                  'Deeprob.evalNet_refines', 'Deeprob.valid_toTree', 'Deeprob.Clt.up_marg', 'Deeprob.Clt.value_leafOK',
+                  'Deeprob.Clt.value_marg', 'Deeprob.Clt.joint_eq_up', 'Deeprob.Clt.root_rows_needed'],
         fragments=[],
         rule='random valid circuits and Chow-Liu trees x per-row missing patterns mixed in one batch (all subsets of missing '
              'variables for small scopes); non-trivial = at least one missing and one observed variable in the batch and an '
@@ -81,12 +83,13 @@ PROPS = {
              'argument guards; non-trivial = inner node and a proper kept subset; distinct = distinct (node table, kept set)',
     ),    'C06': dict(
         module='c06',
-        modules=['DeeprobModel.Props.C06', 'DeeprobModel.Props.C06Net', 'DeeprobModel.Props.Clt'],
+        modules=['DeeprobModel.Props.C06', 'DeeprobModel.Props.C06Net', 'DeeprobModel.Props.Clt', 'DeeprobModel.Props.Topo'],
         theorems=['Deeprob.C06.mpe_keeps_observed', 'Deeprob.C06.mpe_in_domain', 'Deeprob.C06.mpe_fills_scope',
                   'Deeprob.C06.mpe_outside_scope_unchanged', 'Deeprob.C06.mpe_completes', 'Deeprob.C06.topdown_one_leaf_per_var',
                   'Deeprob.C06.mpe_positive', 'Deeprob.C06.mpeNet_keeps_observed', 'Deeprob.C06.mpeNetOrd_refines', 'Deeprob.C06.mpeNet_refines',
                   'Deeprob.Clt.decode_keeps_observed', 'Deeprob.Clt.decode_fills_all', 'Deeprob.Clt.decode_attains_max',
-                  'Deeprob.Clt.mpe_attains_max', 'Deeprob.Clt.up_max_eq_maxOver'],
+                  'Deeprob.Clt.mpe_attains_max', 'Deeprob.Clt.up_max_eq_maxOver', 'Deeprob.Topo.kahn_topological',
+                  'Deeprob.Topo.kahn_perm_collect', 'Deeprob.Topo.mpeNet_kahn_refines'],
         fragments=[],
         rule='random valid DAG circuits over Bernoulli / Categorical leaves (exact comparison of completions with the model on '
              'rows whose smallest arg-max margin exceeds 1e-4), circuits over every leaf family incl. CLT leaves (contract, '
@@ -259,11 +262,12 @@ PROPS = {
                    'returned circuit, i.e. translation-validation style for that learner. Trusted as elsewhere.',
     ),    'C08': dict(
         module='c08',
-        modules=['DeeprobModel.Props.C08', 'DeeprobModel.Props.C08WellOrdered', 'DeeprobModel.Props.C06'],
+        modules=['DeeprobModel.Props.C08', 'DeeprobModel.Props.C08WellOrdered', 'DeeprobModel.Props.C06', 'DeeprobModel.Props.Topo'],
         theorems=['Deeprob.Sched.topdown_atomic_schedule_indep', 'Deeprob.Sched.orInto_idem', 'Deeprob.Sched.layers_partition',
                   'Deeprob.Sched.layers_edge_lt', 'Deeprob.Sched.bottomup_schedule_indep', 'Deeprob.Sched.bottomup_schedule_indep_perm',
                   'Deeprob.Sched.nonatomic_lost_update', 'Deeprob.Sched.disciplinedB_iff', 'Deeprob.Sched.disciplined_imp_indep',
-                  'Deeprob.C06.topdown_one_leaf_per_var'],
+                  'Deeprob.C06.topdown_one_leaf_per_var', 'Deeprob.Topo.layers_some', 'Deeprob.Topo.layers_flatten_topological',
+                  'Deeprob.Topo.mpeNet_layers_refines'],
         fragments=[],
         rule='circuits with k parents of one layer sharing a child (k = 2, 4, 5, 16), random DAGs with sharing; for n_jobs in {2, 4, -1}: '
              'likelihood / log_likelihood / mpe equal to the sequential result, sample complete and evidence-preserving; recorded '
